@@ -8,6 +8,26 @@ import (
 
 var phiDepth int
 
+// pathEdgeFilter, when set, makes pathAvoiding ignore the CFG edges for which
+// it returns true (used through pathAvoidingEdges only).
+var pathEdgeFilter func(from, to *ssa.BasicBlock) bool
+
+// pathAvoidingEdges is pathAvoiding that additionally never takes an edge on
+// which one of the given wants is established (e.g. "the frame is read-only").
+func pathAvoidingEdges(fn *ssa.Function, from ssa.Instruction, target, avoid func(ssa.Instruction) bool, excused ...Want) ([]*ssa.BasicBlock, bool) {
+	pathEdgeFilter = func(p, s *ssa.BasicBlock) bool {
+		eg := edgeGuard(p, s)
+		for _, w := range excused {
+			if _, ok := holds(eg, w); ok {
+				return true
+			}
+		}
+		return false
+	}
+	defer func() { pathEdgeFilter = nil }()
+	return pathAvoiding(fn, from, target, avoid)
+}
+
 // counterIncrements recognises a loop counter: a header phi whose incoming
 // values are one start value (satisfying start, from outside the loop) and
 // otherwise `phi + 1`, possibly merged through further phis (for.post with
